@@ -957,6 +957,9 @@ def main(argv):
             'feeds the driver; it is exercised against libstdc++ by the correspondence, never proved; the '
             'budget-sufficiency theorems assume of it only that a successful parse consumes >= 1 character '
             '(FromCharsConsumes, [charconv.from.chars])',
+            'csv::read_row_std_vector (the @file form of vec_from_file) is an oracle: the op carries the file '
+            'content for the real code and the token row for the model (checks/c18.py::csv_first_row_tokens: '
+            'fields of the first line, only plain rows are generated; the reader itself is property C17)',
             'std::map lookup = first entry with an equal key; std::chrono::round / duration_cast as in '
             'libstdc++ 12; int64 conversion of out-of-range doubles is UB in C++ (driver mimics x86-64)',
         ],
@@ -964,13 +967,21 @@ def main(argv):
                      'all delimiters are ASCII)',
                      'monitor spec of a duration: components <number><unit> separated by blanks or "+", '
                      'SI units, unit optional = s, each component rounded half-to-even to the resolution '
-                     '(or the sum rounded — both accepted); empty duration value treated as unspecified'],
+                     '(or the sum rounded — both accepted)',
+                     'left open by the property text, accept-or-reject only (if accepted the value is fixed, all '
+                     'other clauses are checked): empty duration value (then 0), [[deprecated]] enumerator alias, '
+                     'sub-key of a vec, trailing delimiter `field.=v`'],
         rule='deterministic sweep: every top-level struct of the instantiation list × every leaf of its '
              'definition (incl. nested structs and members missing from the tables) × {valid value on '
              'default and perturbed object, every declared enumerator, fixed duration corpus, malformed '
              'values per kind, field.sub, unknown keys, missing "=", other prefixes + used counts}; leaf '
-             'tops bool/f64/i8…u64/ns…h/vec/enums; documented aliases; seeded random multi-option '
-             'sequences with failing options in the middle',
+             'tops bool/f64/i8…u64/ns…h/vec/enums, vec_from_file (expected_size -1 / 2, value engaged / '
+             'disengaged, direct and @file form with the file content in the op); documented aliases; seeded '
+             'random multi-option sequences with failing options in the middle.  A required-coverage list '
+             '(checks/c18.py::required_coverage: every top x leaf x {valid, each malformed class of its kind, '
+             'indexed}, unknown key per struct, prefix classes, duration / vec / vec_from_file classes, every '
+             'declared enumerator, every documented alias) must have been decided by the monitor in the run, '
+             'else the check fails; exemptions are accept-or-reject only, counted in coverage.exemptions',
     )
 
 
